@@ -246,7 +246,8 @@ class Parser:
                     continue
                 else:
                     out.append(defs.ActionToken(tok.pos))
-                    out.append(defs.TextToken(tok.pos, tok.txt))
+                    out.append(defs.TextToken(tok.pos, tok.txt,
+                                                pos_fix=tok.pos_fix))
             elif type(tok) is defs.LanguageToken:
                 if self.parms.multi_language:
                     self.parms.change_parser_lang(tok)
@@ -481,16 +482,18 @@ class Parser:
     def expand_verb_env_token(self, tok):
         tok = copy.copy(tok)
         tok.environ = False
+        # NB: a token from a macro body is pinned to the macro call
+        end = tok.pos if tok.pos_fix else tok.pos + len(tok.txt)
         return [
                     defs.BeginToken(tok.pos, '\\begin'),
                     defs.SpecialToken(tok.pos, '{'),
                     defs.TextToken(tok.pos, 'verbatim'),
                     defs.SpecialToken(tok.pos, '}'),
                     tok,
-                    defs.EndToken(tok.pos + len(tok.txt), '\\end'),
-                    defs.SpecialToken(tok.pos + len(tok.txt), '{'),
-                    defs.TextToken(tok.pos + len(tok.txt), 'verbatim'),
-                    defs.SpecialToken(tok.pos + len(tok.txt), '}'),
+                    defs.EndToken(end, '\\end'),
+                    defs.SpecialToken(end, '{'),
+                    defs.TextToken(end, 'verbatim'),
+                    defs.SpecialToken(end, '}'),
         ]
 
     #   parse (skip) optional [...] after \\
